@@ -9,7 +9,12 @@ anchor of the mirrored library code.  (c) the operator dispatch of
 expression_impl.rs: closed expressions over literals through the real parser,
 lowering, SSA and value propagation vs the pass-loop mirror
 (Model.FieldDispatch.propagate_lit), the bottom-up dispatch (lit_dispatch) and
-the documented value (Spec.DispatchSpec.doc_eval)."""
+the documented value (Spec.DispatchSpec.doc_eval).
+Third audit: the primes come from EXECUTING Curve::from_str / UsefulConstants::new (harness `field curves`); every
+case runs under a watchdog and a harness process that dies is restarted, the case that killed it being a failing
+input (`run_cases`); the largest single allocation of every call is bounded (harness `field work`); every shift
+count 0..bits(p)+1 in both directions, negative and non-canonical operands are fed; the shift recursion as written
+(Model.Field.shift_w) is evaluated against C16_shift_bounded_work on every shift case."""
 import os
 import re
 import common
@@ -20,14 +25,107 @@ OPS = ["add", "mul", "sub", "div", "idiv", "mod", "pow", "neg", "compl", "shl", 
 UNARY = {"neg", "compl", "asbool", "not"}
 
 
-def primes_from_source():
-    """The shipped primes, read from constants.rs of the current tree."""
-    src = open(os.path.join(common.REPO, "program_structure/src/utils/constants.rs")).read()
-    return [int(x) for x in re.findall(r'"(\d{15,})"', src)]
+CONSTANTS_RS = "program_structure/src/utils/constants.rs"
+
+
+def strip_rust_comments(text):
+    """Rust source without // and /* */ comments (string literals are respected well enough for the files read
+    here: a `//` inside a literal would only make the reader see less, never more)."""
+    out, i, n = [], 0, len(text)
+    while i < n:
+        c = text[i]
+        if c == '"':
+            j = i + 1
+            while j < n and text[j] != '"':
+                j += 2 if text[j] == "\\" else 1
+            out.append(text[i:j + 1])
+            i = j + 1
+        elif text.startswith("//", i):
+            while i < n and text[i] != "\n":
+                i += 1
+        elif text.startswith("/*", i):
+            j = text.find("*/", i + 2)
+            i = n if j < 0 else j + 2
+        else:
+            out.append(c)
+            i += 1
+    return "".join(out)
+
+
+def curve_variants_in_source():
+    """Names of the variants of `enum Curve`, read loosely (comments and attributes dropped).  Used only to COUNT:
+    every variant must be reached by some accepted name, otherwise a supported prime would go unexercised.
+    None when the declaration cannot be found."""
+    src = strip_rust_comments(open(os.path.join(common.REPO, CONSTANTS_RS)).read())
+    m = re.search(r"\benum\s+Curve\s*\{(.*?)\}", src, re.S)
+    if not m:
+        return None
+    body = re.sub(r"#\s*\[[^\]]*\]", " ", m.group(1))
+    names = []
+    for part in body.split(","):
+        w = re.match(r"\s*([A-Za-z_][A-Za-z0-9_]*)", part)
+        if w:
+            names.append(w.group(1))
+    return names
+
+
+def curves_by_execution(HARNESS_BIN):
+    """The supported curves and their primes, obtained by EXECUTING Curve::from_str and UsefulConstants::new of the
+    current tree (harness `field curves`) on candidate names: every string literal and every identifier of
+    constants.rs, as written, upper-cased and lower-cased.  (Third audit: the primes were read with the regex
+    `"\\d{15,}"`, which silently skipped a prime of fewer than 15 digits.)  Returns
+    ([(accepted name, prime)], info)."""
+    src = strip_rust_comments(open(os.path.join(common.REPO, CONSTANTS_RS)).read())
+    cands = set(re.findall(r'"([^"\\\n]{1,64})"', src)) | set(re.findall(r"\b[A-Za-z_][A-Za-z0-9_]*\b", src))
+    cands |= {c.upper() for c in cands} | {c.lower() for c in cands}
+    cands = sorted(c for c in cands if c.strip() == c and c)
+    rc, out, err = common.sh([HARNESS_BIN, "curves"], inp="\n".join(c.encode().hex() for c in cands) + "\n", timeout=120)
+    if rc != 0:
+        raise common.BuildError("harness `field curves` failed rc=%d" % rc, err[-2000:])
+    found = {}            # display name -> {"prime": int, "size": int, "names": [...]}
+    default = None
+    panics = []
+    for line in common._lines(out):
+        head, res = line.split(" = ", 1)
+        if res == "reject":
+            continue
+        if res == "panic":
+            panics.append(head)
+            continue
+        disp, phex, size = res.rsplit(" ", 2)
+        if head == "default":
+            default = disp
+        e = found.setdefault(disp, {"prime": int(phex, 16), "size": int(size), "names": []})
+        if head != "default":
+            e["names"].append(bytes.fromhex(head).decode())
+    curves = []
+    unnamed = []
+    for disp, e in sorted(found.items()):
+        if not e["names"]:
+            unnamed.append(disp)
+            continue
+        pref = [n for n in e["names"] if n == disp.upper()] or sorted(e["names"])
+        curves.append((pref[0], e["prime"]))
+    variants = curve_variants_in_source()
+    info = {"candidates_tried": len(cands), "curves": {d: {"prime": hex(e["prime"]), "prime_size": e["size"],
+                                                          "accepted_names": sorted(e["names"])[:6]} for d, e in found.items()},
+            "default": default, "variants_in_source": variants, "from_str_panics": panics[:5],
+            "reached_only_as_default": unnamed,
+            "prime_size_is_bit_length": all(e["size"] == e["prime"].bit_length() for e in found.values())}
+    return curves, info
 
 
 def nbits(x):
     return x.bit_length()
+
+
+def canon_res(op, r):
+    """Compared observable: the value, or the KIND of failure the property speaks of.  For `<<` and `>>` the
+    property says "over-large shifts are reported as errors": which of the two variants of ArithmeticError names
+    the error (DivisionByZero today, BitOverFlowInShift if the code is corrected) is not part of it."""
+    if op in ("shl", "shr") and r.startswith("err "):
+        return "err shift-count"
+    return r
 
 
 def spec_accepts(op, a, b, p, impl, spec):
@@ -95,18 +193,31 @@ def boundary(p):
             v = (1 << k) + d
             if 0 <= v < p:
                 vals.add(v)
-    counts = {0, 1, 2, b - 1, b, b + 1, 1 << 20, 1 << 40, (1 << 64) - 1, 1 << 64, p // 2, p // 2 + 1, p - 1, p - 2,
-              p - b, p - b + 1, p - b - 1, p - (1 << 20), p - 64}
+    # shift counts at the machine-word and limb boundaries, around the bit size, and the same counts "the other way"
+    fwd = {0, 1, 2, 31, 32, 33, 63, 64, 65, 127, 128, 129, 191, 192, 193, b - 2, b - 1, b, b + 1, 1 << 20, 1 << 40,
+           (1 << 64) - 1, 1 << 64}
+    counts = set(fwd) | {p - c for c in fwd} | {p // 2, p // 2 + 1, p - (1 << 20), p - 64}
     counts = {c for c in counts if 0 <= c < p}
     return sorted(vals), sorted(counts)
 
 
+def shift_operands(p, rnd):
+    """Operands of the deterministic sweep over EVERY forward count: small, large, around p/2, all-ones below the
+    top bit, two seeded ones."""
+    b = nbits(p)
+    ops = [1, 3, p // 2, p // 2 + 1, p - 1, (1 << (b - 1)) - 1, (1 << (b - 1)) % p, 0x5555555555555555 % p] + rnd[:2]
+    return sorted({v for v in ops if 0 <= v < p})
+
+
 def cases(ctx, primes):
+    """Cases on the shipped primes: (op, a, b, p) with canonical operands unless said otherwise."""
     quick = ctx.tier == "quick"
     lines = []
     nrand = 150 if quick else 1500
     npow = 2 if quick else 12
+    stats = {"all_forward_counts": {}, "negative_operand_cases": 0, "non_canonical_cases": 0}
     for p in primes:
+        b = nbits(p)
         vals, counts = boundary(p)
         rnd = [ctx.rng.randrange(p) for _ in range(nrand)]
         small = [ctx.rng.randrange(1 << 16) for _ in range(6)]
@@ -118,12 +229,20 @@ def cases(ctx, primes):
                 for a in vals[::2] + rnd[:10]:
                     for k in counts + small:
                         lines.append((op, a, k, p))
+                # EVERY count 0..bits(p)+1 in the forward direction and p-bits(p)-1..p-1 in the backward direction
+                # (third audit: counts 3..bits(p)-2 on the 254/255-bit primes were reached only at random)
+                allc = [k for k in range(0, b + 2) if k < p]
+                back = [p - k for k in range(1, b + 2) if 0 <= p - k < p]
+                stats["all_forward_counts"][hex(p)] = [allc[0], allc[-1]] if allc else []
+                for a in shift_operands(p, rnd):
+                    for k in allc + back:
+                        lines.append((op, a, k, p))
             elif op == "pow":
                 for a in vals[:12] + rnd[:4]:
                     for e in [0, 1, 2, 3, 5, 64, 255, 65537] + small[:2]:
                         lines.append((op, a, e, p))
                 # exponents between 2^20 and 2^32: the result must come from modular exponentiation in
-                # bounded time, never from building the unreduced power (2 s watchdog in the harness)
+                # bounded time, never from building the unreduced power (watchdog + allocation bound)
                 for a in (2, 3, vals[-1]):
                     for e in (1 << 20, 10 ** 7, (1 << 31) - 1, 1 << 31, (1 << 32) - 1, 4000000000, 1 << 32, 10 ** 12):
                         if e < p:
@@ -133,22 +252,103 @@ def cases(ctx, primes):
                 lines.append((op, 2, p - 1, p))
             else:
                 for a in vals:
-                    for b in vals:
-                        lines.append((op, a, b, p))
+                    for b2 in vals:
+                        lines.append((op, a, b2, p))
                 for i in range(0, len(rnd) - 1, 2):
                     lines.append((op, rnd[i], rnd[i + 1], p))
-        # non-canonical operands (literals may exceed p): mirror vs implementation only
+        n0 = len(lines)
+        # non-canonical operands (the Rust API takes any BigInt; literals may exceed p): mirror vs implementation only.
+        # `pow` is compared with Model.FieldPow.modpow_steps (the mirror of the library routine, which - unlike
+        # Field.pow = a^b mod p - also mirrors what the library does with a negative base or exponent)
+        big = (p, p + 1, 2 * p + 3, (1 << 256) + 5, (1 << 300) - 1)
         for op in OPS:
-            if op == "pow":
-                continue
-            for a in (p, p + 1, 2 * p + 3, (1 << 256) + 5, (1 << 300) - 1):
-                for b in (0, 1, 5, p - 1, p + 2):
-                    lines.append((op, a, b, p))
-    return lines
+            for a in big:
+                for b2 in (0, 1, 5, p - 1, p + 2):
+                    if op != "pow" or b2 < (1 << 32) or a == p + 1:     # full-size exponents are slow in the model
+                        lines.append((op, a, b2, p))
+        stats["non_canonical_cases"] += len(lines) - n0
+        n0 = len(lines)
+        # negative operands (third audit: C16_reducing_functions_on_any_integers and C16_shift_bounded_work
+        # quantify over all integers, none was ever fed)
+        neg = [-1, -2, -(p // 2), -(p // 2) - 1, -p + 1, -p, -p - 1, -(1 << 64), -(1 << 256) - 5, -rnd[0], -2 * p - 3]
+        pos = [0, 1, 3, p // 2 + 1, p - 1, rnd[1]]
+        for op in OPS:
+            for a in neg:
+                for b2 in neg[:7] + pos[:5]:
+                    if op != "pow" or b2 < (1 << 32) or a == -2:
+                        lines.append((op, a, b2, p))
+            for a in pos:
+                for b2 in neg:
+                    lines.append((op, a, b2, p))
+        stats["negative_operand_cases"] += len(lines) - n0
+    return lines, stats
+
+
+def hx(z):
+    return "%x" % z if z >= 0 else "-%x" % -z
 
 
 def fmt(c):
     return "%s %x %x %x" % c
+
+
+ABORT_LIMIT = 200      # per shard; the cases after that many kills are counted as `not-run`, never dropped silently
+
+
+def run_cases(binary, args, lines, shards=None, timeout=900, stats=None, env=None):
+    """Feeds `lines` to the harness and returns one output line per input line, whatever the harness does.
+    The harness flushes every line and runs every case under a watchdog; so when a process dies (stack overflow of
+    an unbounded recursion, failed allocation: signals no catch_unwind can turn into a value) the case that killed
+    it is the first one without an answer: it is answered `<line> = abort`, and a new process takes the remaining
+    lines.  A case the watchdog gave up on is answered `timeout` by the harness, which then exits; the rest is
+    resumed likewise.  (Third audit: such a death used to surface as `BuildError`, "could not be built", with no
+    input, although the case is a precise failing input.)"""
+    import concurrent.futures
+    shards = shards or common.NPROC
+    stats = stats if stats is not None else {}
+    stats.setdefault("aborts", [])
+    stats.setdefault("not_run", 0)
+    stats.setdefault("restarts_after_timeout", 0)
+    import threading
+    lock = threading.Lock()
+    n = len(lines)
+    if n == 0:
+        return []
+    size = max(1, (n + shards - 1) // shards)
+    chunks = [lines[i:i + size] for i in range(0, n, size)]
+
+    def one(ch):
+        outs, pos, kills = [], 0, 0
+        while pos < len(ch):
+            rc, out, err = common.sh([binary] + args, inp="\n".join(ch[pos:]) + "\n", timeout=timeout, env=env)
+            if out and not out.endswith("\n"):
+                out = out[:out.rfind("\n") + 1]          # a line cut off by the death of the process
+            got = common._lines(out)[:len(ch) - pos]
+            outs += got
+            pos += len(got)
+            if pos >= len(ch):
+                break
+            if rc == 0 and got and got[-1].endswith("= timeout"):
+                with lock:
+                    stats["restarts_after_timeout"] += 1
+                continue
+            last = (err.strip().splitlines() or [""])[-1][:200]
+            with lock:
+                stats["aborts"].append({"case": ch[pos], "rc": rc, "stderr": last})
+            outs.append("%s = abort" % ch[pos])
+            pos += 1
+            kills += 1
+            if kills >= ABORT_LIMIT:
+                with lock:
+                    stats["not_run"] += len(ch) - pos
+                outs += ["%s = not-run" % l for l in ch[pos:]]
+                break
+        return outs
+    with concurrent.futures.ThreadPoolExecutor(max_workers=shards) as ex:
+        res = []
+        for o in ex.map(one, chunks):
+            res.extend(o)
+    return res
 
 
 def retry_timeouts(binary, args, lines, outs):
@@ -156,18 +356,18 @@ def retry_timeouts(binary, args, lines, outs):
     a process of its own with a 20 s limit (at most 16 cases, side by side); only a repeated time-out stands."""
     env = dict(common.ENV)
     env["VERIF_FIELD_WATCHDOG_SECS"] = "20"
-    idx = [i for i, o in enumerate(outs) if o.endswith("= timeout")][:16]
+    allidx = [i for i, o in enumerate(outs) if o.endswith("= timeout")]
+    idx = allidx[:16]
     if not idx:
         return outs
 
     def one(i):
-        rc, out, err = common.sh([binary] + args, inp=lines[i] + "\n", env=env, timeout=60)
-        return out.strip().splitlines()[-1] if rc == 0 and out.strip() else outs[i]
+        return run_cases(binary, args, [lines[i]], shards=1, timeout=60, env=env)[0]
     import concurrent.futures
     with concurrent.futures.ThreadPoolExecutor(max_workers=16) as ex:
         for i, o in zip(idx, ex.map(one, idx)):
             outs[i] = o
-    common.log("C16: %d case(s) timed out under the short watchdog and were re-run alone" % len(idx))
+    common.log("C16: %d case(s) timed out under the short watchdog, %d re-run alone" % (len(allidx), len(idx)))
     return outs
 
 
@@ -184,15 +384,6 @@ PREFIX_TOK = {"not": "!", "neg": "-", "compl": "~"}
 INFIX = list(INFIX_TOK)
 CMP = ["le", "ge", "lt", "gt", "eq", "neq"]
 CHEAP = [o for o in INFIX if o not in ("div", "pow")]
-
-
-def curves_from_source():
-    """[(name accepted by Curve::from_str, prime)] read from constants.rs of the current tree."""
-    src = open(os.path.join(common.REPO, "program_structure/src/utils/constants.rs")).read()
-    out = []
-    for name, num in re.findall(r'\b([A-Z][A-Za-z0-9_]*)\s*=>\s*\{?\s*"(\d{15,})"', src):
-        out.append((name.upper(), int(num)))
-    return out
 
 
 def render(t, top=True):
@@ -323,38 +514,69 @@ def dispatch_cases(ctx, curves):
     return out
 
 
+def code_only(text):
+    """Rust text with comments dropped and white space squeezed: what an edit must change to change the code."""
+    return " ".join(strip_rust_comments(text).split())
+
+
+def linked_bigint_source():
+    """(version, directory) of the num-bigint-dig package the tree links, asked of cargo itself
+    (`cargo metadata --offline`), not guessed from Cargo.lock and a registry path."""
+    import json
+    rc, out, err = common.sh(["cargo", "metadata", "--format-version", "1", "--offline"], cwd=common.REPO, timeout=120)
+    if rc != 0:
+        return None, None, "cargo metadata failed: " + err.strip()[-200:]
+    try:
+        for pk in json.loads(out)["packages"]:
+            if pk["name"] == "num-bigint-dig":
+                return pk["version"], os.path.dirname(pk["manifest_path"]), pk["features"].get("default", [])
+    except (ValueError, KeyError) as e:
+        return None, None, "cargo metadata unreadable: %r" % (e,)
+    return None, None, "no package num-bigint-dig in cargo metadata"
+
+
 def modpow_anchor():
-    """Model.FieldPow mirrors monty_modpow of num-bigint-dig as pinned by corpus/C16/modpow_anchor.json: the version and
-    checksum in the tree's Cargo.lock, the text of monty.rs in the cargo registry, the window width and the limb width."""
-    import glob
+    """Model.FieldPow mirrors monty_modpow of num-bigint-dig as pinned by corpus/C16/modpow_anchor.json.  What is
+    compared is the CODE: monty.rs of the package cargo links, comments dropped and white space squeezed
+    (`monty_code_sha256`), its window width, the limb width feature, and the body of modular_arithmetic::pow without
+    comments.  Version and checksum are recorded; a `cargo update` that leaves the mirrored routine as it is, a comment
+    inside `pow`, or a reformatting is `same` (third audit: each of them used to be reported as a broken mirror)."""
     import hashlib
     import json
     want = json.load(open(os.path.join(common.VERIF, "corpus", "C16", "modpow_anchor.json")))
+    informational = ("version", "checksum", "monty_sha256")
     got = {}
     lock = open(os.path.join(common.REPO, "Cargo.lock")).read()
-    m = re.search(r'name = "num-bigint-dig"\nversion = "([^"]+)"\nsource = "[^"]*"\nchecksum = "([0-9a-f]+)"', lock)
-    if not m:
-        return {"status": "changed", "why": "Cargo.lock has no registry entry for num-bigint-dig", "got": got}
-    got["version"], got["checksum"] = m.group(1), m.group(2)
+    m = re.search(r'name = "num-bigint-dig"\nversion = "([^"]+)"\n(?:source = "[^"]*"\n)?(?:checksum = "([0-9a-f]+)")?', lock)
+    if m:
+        got["version"], got["checksum"] = m.group(1), m.group(2)
     toml = open(os.path.join(common.REPO, "circom_algebra", "Cargo.toml")).read()
     got["default_features"] = not re.search(r"num-bigint-dig\s*=\s*\{[^}]*default-features\s*=\s*false", toml)
-    mp = re.search(r"pub fn pow\(.*?\n\}", open(os.path.join(common.REPO, "circom_algebra/src/modular_arithmetic.rs")).read(), re.S)
+    src = strip_rust_comments(open(os.path.join(common.REPO, "circom_algebra/src/modular_arithmetic.rs")).read())
+    mp = re.search(r"pub\s+fn\s+pow\s*\(.*?\n\}", src, re.S)
     if mp:
         got["pow_body"] = " ".join(mp.group(0).split())
-    srcs = glob.glob(os.path.expanduser("~/.cargo/registry/src/*/num-bigint-dig-%s/src/monty.rs" % got["version"]))
-    if srcs:
-        text = open(srcs[0]).read()
-        got["monty_sha256"] = hashlib.sha256(text.encode()).hexdigest()
-        w = re.search(r"let n = (\d+);", text)
-        got["window_bits"] = int(w.group(1)) if w else None
-        feat = open(os.path.join(os.path.dirname(os.path.dirname(srcs[0])), "Cargo.toml")).read()
-        got["u64_digit_default"] = bool(re.search(r'default = \[[^\]]*"u64_digit"', feat))
-    # a key that could not be read (registry source gone, pattern no longer found) counts as changed: nothing is
-    # compared "as far as available" (second audit)
-    diff = [k for k in want if got.get(k, "<not readable>") != want[k]]
+    version, pkgdir, feats = linked_bigint_source()
+    if pkgdir is None:
+        got["linked_source"] = feats
+    else:
+        got["linked_version"] = version
+        try:
+            text = open(os.path.join(pkgdir, "src", "monty.rs")).read()
+            got["monty_sha256"] = hashlib.sha256(text.encode()).hexdigest()
+            got["monty_code_sha256"] = hashlib.sha256(code_only(text).encode()).hexdigest()
+            w = re.search(r"let n = (\d+);", text)
+            got["window_bits"] = int(w.group(1)) if w else None
+            got["u64_digit_default"] = "u64_digit" in feats
+        except OSError as e:
+            got["linked_source"] = "unreadable: %r" % (e,)
+    # a key that could not be read counts as changed: nothing is compared "as far as available" (second audit)
+    diff = [k for k in want if k not in informational and got.get(k, "<not readable>") != want[k]]
+    noted = [k for k in informational if k in want and got.get(k) != want[k]]
     if diff:
         return {"status": "changed", "why": ", ".join("%s: %r (mirrored: %r)" % (k, got.get(k, "<not readable>"), want[k]) for k in diff), "got": got}
-    return {"status": "same", "got": got, "keys_compared": sorted(want)}
+    return {"status": "same", "got": got, "keys_compared": sorted(k for k in want if k not in informational),
+            "recorded_only_and_different": noted}
 
 
 SEXP_TOK = re.compile(r"\(|\)|[^\s()]+")
@@ -425,21 +647,61 @@ def dispatch_verdict(p, dump, doc):
     return "oracle fault: " + doc
 
 
-def run_dispatch(ctx, HARNESS_BIN, MODEL_BIN):
-    curves = curves_from_source()
+def node_tree(n):
+    """Dump node -> case tree ("n", z) | ("i", op, l, r) | ("p", op, x); None for anything else."""
+    if not isinstance(n, list) or not n:
+        return None
+    if n[0] == "num" and len(n) == 3:
+        return ("n", int(n[1], 16))
+    if n[0] == "infix" and len(n) == 5:
+        l, r = node_tree(n[2]), node_tree(n[3])
+        return ("i", n[1], l, r) if l and r and n[1] in INFIX_TOK else None
+    if n[0] == "prefix" and len(n) == 4:
+        x = node_tree(n[2])
+        return ("p", n[1], x) if x and n[1] in PREFIX_TOK else None
+    return None
+
+
+def extra_constants(ni, nm):
+    """The nodes at which the implementation attaches a constant and the mirror none, when the two trees are
+    otherwise the same (shape, operators, literals, every other value).  None when they differ in any other way.
+    Such a node is not a wrong claim by itself: the caller asks the documented semantics about its subtree."""
+    found = []
+
+    def go(a, b):
+        if not (isinstance(a, list) and isinstance(b, list)) or len(a) != len(b) or a[0] != b[0]:
+            return False
+        if a[0] in ("num", "infix", "prefix") and a[1] != b[1]:
+            return False
+        kids = {"infix": (2, 3), "prefix": (2,)}.get(a[0], ())
+        for k in kids:
+            if not go(a[k], b[k]):
+                return False
+        if a[-1] != b[-1]:
+            if b[-1] == "-" and a[-1] != "-":
+                found.append(a)
+            else:
+                return False
+        return True
+    return found if go(ni, nm) and found else None
+
+
+def run_dispatch(ctx, HARNESS_BIN, MODEL_BIN, curves, run_stats):
     cs = dispatch_cases(ctx, curves)
     hl = ["%s %s" % (name, render(t).encode().hex()) for name, p, t in cs]
     ml = ["%x %s" % (p, tokens(t)) for name, p, t in cs]
     import concurrent.futures
     with concurrent.futures.ThreadPoolExecutor(max_workers=4) as ex:     # the four runs are independent
+        j0 = ex.submit(run_cases, HARNESS_BIN, ["dispatch"], hl, stats=run_stats)
         jobs = [ex.submit(common.run_lines, b, a, l, shards=common.NPROC) for b, a, l in (
-            (HARNESS_BIN, ["dispatch"], hl), (MODEL_BIN, ["dispatch-loop"], ml),
-            (MODEL_BIN, ["dispatch"], ml), (MODEL_BIN, ["dispatch-doc"], ml))]
-        impl, loop, bott, doc = [j.result() for j in jobs]
+            (MODEL_BIN, ["dispatch-loop"], ml), (MODEL_BIN, ["dispatch"], ml), (MODEL_BIN, ["dispatch-doc"], ml))]
+        impl = j0.result()
+        loop, bott, doc = [j.result() for j in jobs]
     impl = retry_timeouts(HARNESS_BIN, ["dispatch"], hl, impl)
     if not (len(impl) == len(loop) == len(bott) == len(doc) == len(cs)):
         raise common.BuildError("dispatch outputs differ in length", "%d %d %d %d %d" % (len(impl), len(loop), len(bott), len(doc), len(cs)))
     disagreements, failing = [], []
+    pending, extra = [], {"cases": 0, "nodes_accepted": 0, "samples": []}
     kinds, nontrivial, ops_seen = {}, set(), set()
     # hypotheses of the dispatch theorems, evaluated on every case: `prime p`, `2 < p`, `Z.log2 p < 2^64` (per curve),
     # `lits_nonneg e` (every literal of the tree), and `lit_dispatch p e = Ok o` of C16_pass_loop_reaches_dispatch
@@ -459,14 +721,27 @@ def run_dispatch(ctx, HARNESS_BIN, MODEL_BIN):
         if not (h1 and h2 and h3) and len(hyp["broken"]) < 5:
             hyp["broken"].append({"case": inp, "prime/2<p/log2": h1, "lits_nonneg": h2, "lit_dispatch": rb})
         if ri != rm:
-            disagreements.append({"case": inp, "impl": ri, "model": rm})
+            ni_, nm_ = parse_dump(ri), parse_dump(rm)
+            ext = extra_constants(ni_, nm_) if ni_ and nm_ else None
+            subs = [node_tree(x) for x in ext] if ext else None
+            if subs and all(subs):
+                # more constants than the mirror attaches, nothing else differs: judged by the documented value below
+                pending.append((inp, name, p, ri, rm, [(x[-1], st) for x, st in zip(ext, subs)]))
+            else:
+                disagreements.append({"case": inp, "impl": ri, "model": rm})
         n = parse_dump(rm)
         root = n[-1] if n else None
         rootb = parse_dump(rb) if rb.startswith("(") else rb
         if n is None or root != rootb:
             disagreements.append({"case": inp, "impl": "pass loop mirror: " + rm, "model": "bottom-up dispatch: " + rb})
-        if rd.startswith("err other") or rd in ("panic", "outoffuel", "bad-line"):
+        if rd in ("panic", "outoffuel", "bad-line"):
             raise common.BuildError("dispatch oracle fault", inp + " -> " + rd)
+        if rd.startswith("err other"):
+            # the documented value does not exist: a divisor without inverse, i.e. the modulus is not prime.  This is a
+            # failing input of "for every supported prime", not a fault of the machinery (it used to abort the run)
+            failing.append({"case": inp, "impl": ri, "spec": "no value: a non-zero divisor has no inverse modulo %x, which is "
+                                                              "therefore not a prime" % p})
+            continue
         why = dispatch_verdict(p, ri, rd)
         if why:
             failing.append({"case": inp, "impl": ri, "spec": rd + " (" + why + ")"})
@@ -476,22 +751,70 @@ def run_dispatch(ctx, HARNESS_BIN, MODEL_BIN):
         if t[0] != "n":
             ops_seen.add(t[1])
             nontrivial.add((t[1], name, ri.rsplit(" ", 2)[-1] if k != "f" else ri.rsplit("(f ", 1)[-1]))
+    # constants the implementation attaches where the mirror attaches none: each must be the documented value of its
+    # subtree (then the mirror is merely behind a sound extension, counted and shown in the evidence - third audit:
+    # correct extra `==` / `!=` arms for two Boolean constants used to be "correspondence broken"); otherwise the
+    # subtree is a failing input
+    if pending:
+        flat = [(i, v, st) for i, pc in enumerate(pending) for v, st in pc[5]]
+        docs = common.run_lines(MODEL_BIN, ["dispatch-doc"], ["%x %s" % (pending[i][2], tokens(st)) for i, v, st in flat])
+        bad = set()
+        for (i, v, st), ld in zip(flat, docs):
+            inp, name, p = pending[i][0], pending[i][1], pending[i][2]
+            rd = ld.split(" = ", 1)[1]
+            ok = rd.startswith("ok ") and isinstance(v, list) and len(v) == 2 and int(v[1], 16) == int(rd[3:], 16) \
+                and (v[0] == "f" or int(rd[3:], 16) in (0, 1))
+            if ok:
+                extra["nodes_accepted"] += 1
+            else:
+                bad.add(i)
+                failing.append({"case": "dispatch %s %x :: %s :: %s" % (name, p, render(st), tokens(st)),
+                                "impl": "constant %s attached (inside %s)" % (" ".join(v) if isinstance(v, list) else v, render(st)),
+                                "spec": rd + " (a constant the mirror does not attach, and not the documented value)"})
+        for i, pc in enumerate(pending):
+            if i not in bad:
+                extra["cases"] += 1
+                if len(extra["samples"]) < 3:
+                    extra["samples"].append({"case": pc[0], "impl": pc[3], "mirror": pc[4]})
+        if extra["cases"]:
+            common.log("C16 dispatch: the implementation attaches MORE constants than the mirror on %d case(s); each is the "
+                       "documented value of its subtree (accepted, see coverage.dispatch.extra_constants)" % extra["cases"])
     return {"cases": len(cs), "disagreements": disagreements, "failing": failing, "kinds": kinds, "hypotheses": hyp,
+            "extra_constants": extra,
             "nontrivial": len(nontrivial), "ops": sorted(ops_seen), "curves": [c[0] for c in curves],
             "samples": [impl[0], impl[len(impl) // 2]]}
+
+
+def sweep_lines(primes):
+    """The cases of the harness' `sweep`, in its order (fallback when the sweep process dies)."""
+    return ["%s %x %x %x" % (op, a, b, p) for p in primes for op in OPS for a in range(p) for b in range(p)]
+
+
+def alloc_bound(op, a, b, p):
+    """Largest single allocation (bytes) granted to one call: four times the bytes of a value of
+    bits(a) + bits(b) + 2 bits(p) + 256 bits, plus 1 KiB.  Every intermediate value of every function is within
+    that size when the code builds no power beyond the operand / mask width (C16_shift_bounded_work: at most
+    bits(l) + bits(p) bits) and reduces while it exponentiates; 2^count or a^e unreduced is beyond it for the
+    counts and exponents >= 2^20 that are fed.  Measured slack on the unchanged tree: see coverage.work."""
+    bits = nbits(abs(a)) + nbits(abs(b)) + 2 * nbits(p) + 256
+    return 4 * (bits // 8) + 1024
 
 
 def run(ctx, proofs):
     HARNESS_BIN = common.build_harness("field")
     MODEL_BIN = common.build_model("field")
-    primes = primes_from_source()
+    curves, curve_info = curves_by_execution(HARNESS_BIN)
+    primes = sorted({p for _, p in curves})
     import time
     t0 = time.time()
     disagreements = []
     failing = []
     evaluations = 0
-    # (a) exhaustive small fields: mirror vs implementation vs spec
-    sweep_args = [str(p) for p in SMALL]
+    run_stats = {}
+    err_names = {}
+    # (a) exhaustive small fields: mirror vs implementation vs spec.  A supported prime small enough joins the sweep.
+    small = sorted(set(SMALL) | {p for p in primes if p < 600})
+    sweep_args = [str(p) for p in small]
     import concurrent.futures
     with concurrent.futures.ThreadPoolExecutor(max_workers=3) as ex:     # independent runs, side by side
         j1 = ex.submit(common.sh, [HARNESS_BIN, "sweep"] + sweep_args, timeout=600)
@@ -500,22 +823,30 @@ def run(ctx, proofs):
         rc0, impl, err0 = j1.result()
         rc, model, err = j2.result()
         rc2, spec, err2 = j3.result()
-    if rc0 != 0:
-        raise common.BuildError("harness field-sweep failed", err0[-2000:])
     if rc != 0 or rc2 != 0:
         raise common.BuildError("model driver sweep failed", (err + err2)[-2000:])
-    impl_l, model_l, spec_l = impl.splitlines(), model.splitlines(), spec.splitlines()
+    model_l, spec_l = model.splitlines(), spec.splitlines()
+    if rc0 != 0:
+        # the sweep process died (stack overflow, failed allocation) or timed out: the same cases, one line each,
+        # through the runner that survives it and names the case
+        common.log("C16: harness sweep ended with rc=%d (%s); re-running its %d cases line by line"
+                   % (rc0, (err0.strip().splitlines() or [""])[-1][:120], len(model_l)))
+        impl_l = run_cases(HARNESS_BIN, [], sweep_lines(small), stats=run_stats)
+        impl_l = retry_timeouts(HARNESS_BIN, [], sweep_lines(small), impl_l)
+    else:
+        impl_l = impl.splitlines()
     if not (len(impl_l) == len(model_l) == len(spec_l)):
         raise common.BuildError("sweep outputs differ in length", "%d %d %d" % (len(impl_l), len(model_l), len(spec_l)))
     evaluations += len(impl_l)
     nontrivial = set()
     for li, lm, ls in zip(impl_l, model_l, spec_l):
         head, ri = li.split(" = ")
-        rm = lm.split(" = ")[1]
-        rs = ls.split(" = ")[1]
+        op, a, b, p = head.split()
+        if ri.startswith("err "):
+            err_names[op + ": " + ri] = err_names.get(op + ": " + ri, 0) + 1
+        ri, rm, rs = canon_res(op, ri), canon_res(op, lm.split(" = ")[1]), canon_res(op, ls.split(" = ")[1])
         if ri != rm:
             disagreements.append({"case": head, "impl": ri, "model": rm})
-        op, a, b, p = head.split()
         a, b, p = int(a, 16), int(b, 16), int(p, 16)
         ok = div_ok(a, b, p, ri) if op == "div" else spec_accepts(op, a, b, p, ri, rs)
         if not ok:
@@ -524,45 +855,113 @@ def run(ctx, proofs):
     common.log("C16 small-field sweep: %.1fs" % (time.time() - t0))
     t0 = time.time()
     # (b) shipped primes
-    cs = cases(ctx, primes)
+    cs, case_stats = cases(ctx, primes)
     lines = [fmt(c) for c in cs]
     evaluations += len(lines)
-    canon_idx = [i for i, c in enumerate(cs) if c[1] < c[3] and c[2] < c[3] and c[0] != "div"]
-    with concurrent.futures.ThreadPoolExecutor(max_workers=3) as ex:
-        j1 = ex.submit(common.run_lines, HARNESS_BIN, [], lines, shards=common.NPROC)
+    canon = [0 <= c[1] < c[3] and 0 <= c[2] < c[3] for c in cs]
+    canon_idx = [i for i, c in enumerate(cs) if canon[i] and c[0] != "div"]
+    shift_idx = [i for i, c in enumerate(cs) if c[0] in ("shl", "shr")]
+    # `pow` on canonical operands: Field.eval (a^b mod p) and FieldPow (the library routine's mirror); on other
+    # operands FieldPow only (it mirrors the library's treatment of a negative base / exponent, Field.pow does not)
+    pow_idx = [i for i, c in enumerate(cs) if c[0] == "pow"]
+    with concurrent.futures.ThreadPoolExecutor(max_workers=5) as ex:
+        j1 = ex.submit(run_cases, HARNESS_BIN, ["work"], lines, stats=run_stats)
         j2 = ex.submit(common.run_lines, MODEL_BIN, ["mirror"], lines, shards=common.NPROC)
         j3 = ex.submit(common.run_lines, MODEL_BIN, ["spec"], [lines[i] for i in canon_idx], shards=common.NPROC)
-        impl_l, model_l, spec_l = j1.result(), j2.result(), j3.result()
-    impl_l = retry_timeouts(HARNESS_BIN, [], lines, impl_l)
+        j4 = ex.submit(common.run_lines, MODEL_BIN, ["shift-work"], [lines[i] for i in shift_idx], shards=common.NPROC)
+        j5 = ex.submit(common.run_lines, MODEL_BIN, ["pow-steps"], [lines[i] for i in pow_idx], shards=common.NPROC)
+        impl_l, model_l, spec_l, sw_l, steps_l = j1.result(), j2.result(), j3.result(), j4.result(), j5.result()
+    impl_l = retry_timeouts(HARNESS_BIN, ["work"], lines, impl_l)
     spec_of = dict(zip(canon_idx, spec_l))
+    steps_of = dict(zip(pow_idx, steps_l))
     kinds = {}
+    work = {"cases": 0, "max_alloc_bytes": 0, "max_ratio_to_bound": 0.0, "over_bound": 0,
+            "bound": "4 * (bits a + bits b + 2 bits p + 256) / 8 + 1024 bytes per allocation"}
+    impl_res = []
     for i, (c, li, lm) in enumerate(zip(cs, impl_l, model_l)):
+        op, a, b, p = c
         ri = li.split(" = ")[1]
+        m = re.match(r"(.*) maxalloc (\d+)$", ri)
+        alloc = None
+        if m:
+            ri, alloc = m.group(1), int(m.group(2))
+        impl_res.append(ri)
         rm = lm.split(" = ")[1]
-        kinds[ri.split()[0] if not ri.startswith("err") else ri] = kinds.get(ri.split()[0] if not ri.startswith("err") else ri, 0) + 1
+        if ri.startswith("err "):
+            err_names[op + ": " + ri] = err_names.get(op + ": " + ri, 0) + 1
+        ri, rm = canon_res(op, ri), canon_res(op, rm)
+        k = ri.split()[0] if not ri.startswith("err") else ri
+        kinds[k] = kinds.get(k, 0) + 1
+        if op == "pow" and not canon[i]:
+            ms = re.match(r"ok ([0-9a-f]+) steps \d+$", steps_of[i].split(" = ")[1])
+            rm = "ok " + ms.group(1) if ms else steps_of[i].split(" = ")[1]
         if ri != rm:
             disagreements.append({"case": lines[i], "impl": ri, "model": rm})
-        op, a, b, p = c
-        if a < p and b < p:
+        if canon[i]:
             if op == "div":
                 ok = div_ok(a, b, p, ri)
                 rs = "relational: c*b = a (mod p), canonical; err exactly for b = 0"
             else:
-                rs = spec_of[i].split(" = ")[1]
+                rs = canon_res(op, spec_of[i].split(" = ")[1])
                 ok = spec_accepts(op, a, b, p, ri, rs)
             if not ok:
                 failing.append({"case": lines[i], "impl": ri, "spec": rs})
             nontrivial.add((op, p, ri))
+        elif ri in ("abort", "timeout", "not-run") or (ri == "panic" and not (op == "pow" and b < 0)):
+            # outside the field elements the property fixes no value, but it does say "never panics" and "bounded
+            # time": the only panic of the unchanged tree is the library's `**` with a negative exponent, which the
+            # dispatch cannot produce (C16_dispatch_sound: attached constants are canonical)
+            failing.append({"case": lines[i], "impl": ri, "spec": "an answer (value or error) in bounded time; no value is fixed for operands outside [0,p)"})
+        elif op not in ("pow", "shl", "shr") and ri.startswith("ok "):
+            # C16_canonical_on_any_integers, as an oracle on the implementation: whatever integers these functions
+            # are given, the answer is canonical
+            work["canonical_outside_field_checked"] = work.get("canonical_outside_field_checked", 0) + 1
+            if not 0 <= int(ri[3:], 16) < p:
+                failing.append({"case": lines[i], "impl": ri, "spec": "a canonical result in [0,p) (C16_canonical_on_any_integers)"})
+        # bounded work, observed: the largest single allocation of the call
+        if alloc is not None:
+            work["cases"] += 1
+            bd = alloc_bound(op, a, b, p)
+            work["max_alloc_bytes"] = max(work["max_alloc_bytes"], alloc)
+            work["max_ratio_to_bound"] = max(work["max_ratio_to_bound"], round(alloc / bd, 3))
+            if alloc > bd:
+                work["over_bound"] += 1
+                failing.append({"case": lines[i], "impl": "%s, after allocating %d bytes at once" % (ri, alloc),
+                                "spec": "bounded work: no intermediate value beyond %d bytes (%s)" % (bd, work["bound"])})
     common.log("C16 functions on the shipped primes: %.1fs" % (time.time() - t0))
     t0 = time.time()
+    # (b'') the shift recursion as written (Model.Field.shift_w, fuel 64) on every shift case, negative and
+    # non-canonical operands included: the conclusions of C16_shift_bounded_work evaluated on the extracted code
+    # (value = the mirror's, <= 2 calls, power built below max(mask width, operand bits), intermediate bits bounded)
+    swork = {"cases": len(shift_idx), "hypotheses_0<p_and_fuel>=2_hold": 0, "max_calls": 0, "max_built_exponent": 0,
+             "max_intermediate_bits": 0, "conclusion_broken": []}
+    for i, ls in zip(shift_idx, sw_l):
+        op, a, b, p = cs[i]
+        swork["hypotheses_0<p_and_fuel>=2_hold"] += (p > 0)
+        m = re.match(r"(.*) calls (\d+) built (-|[0-9a-f]+) bits (\d+)$", ls.split(" = ")[1])
+        rm = model_l[i].split(" = ")[1]
+        okc = False
+        if m:
+            calls, built, bits_ = int(m.group(2)), (None if m.group(3) == "-" else int(m.group(3), 16)), int(m.group(4))
+            la, lp = nbits(abs(a)), max(1, nbits(p))
+            okc = (m.group(1) == rm and 1 <= calls <= 2 and bits_ <= la + lp
+                   and (built is None or (0 <= built < max(lp, la) and (b == built or b == p - built))))
+            swork["max_calls"] = max(swork["max_calls"], calls)
+            swork["max_built_exponent"] = max(swork["max_built_exponent"], built or 0)
+            swork["max_intermediate_bits"] = max(swork["max_intermediate_bits"], bits_)
+        if not okc and len(swork["conclusion_broken"]) < 5:
+            swork["conclusion_broken"].append({"case": lines[i], "shift_w": ls.split(" = ")[1], "eval": rm})
     # (b') the multiplication sequence of `**` (Model.FieldPow): same value as the implementation, and the number of
     # modular multiplications it makes is the proved function of the exponent's limb count
-    pow_idx = [i for i, c in enumerate(cs) if c[0] == "pow" and c[1] < c[3] and c[2] < c[3]]
-    steps_l = common.run_lines(MODEL_BIN, ["pow-steps"], [lines[i] for i in pow_idx], shards=common.NPROC)
     max_steps = 0
-    for i, ls in zip(pow_idx, steps_l):
+    npow_struct = 0
+    for i in pow_idx:
+        if not canon[i]:
+            continue
+        npow_struct += 1
+        ls = steps_of[i]
         m = re.match(r"ok ([0-9a-f]+) steps (\d+)$", ls.split(" = ")[1])
-        ri = impl_l[i].split(" = ")[1]
+        ri = impl_res[i]
         e = cs[i][2]
         want = 17 if e == 0 else 80 * ((e.bit_length() + 63) // 64) + 13
         if not m or "ok " + m.group(1) != ri or int(m.group(2)) != want:
@@ -571,15 +970,18 @@ def run(ctx, proofs):
         else:
             max_steps = max(max_steps, int(m.group(2)))
     anchor = modpow_anchor()
-    common.log("C16 multiplication sequence of pow: %.1fs" % (time.time() - t0))
+    common.log("C16 shift recursion, multiplication sequence of pow, anchor: %.1fs" % (time.time() - t0))
     t0 = time.time()
     # (c) the operator dispatch of expression_impl.rs through the real value propagation
-    disp = run_dispatch(ctx, HARNESS_BIN, MODEL_BIN)
+    disp = run_dispatch(ctx, HARNESS_BIN, MODEL_BIN, curves, run_stats)
     evaluations += disp["cases"]
     disagreements += disp["disagreements"]
     failing += disp["failing"]
     common.log("C16 dispatch: %.1fs" % (time.time() - t0))
+    if run_stats.get("aborts"):
+        common.log("C16: the harness process died on %d case(s), first: %r" % (len(run_stats["aborts"]), run_stats["aborts"][0]))
     # verdict
+    failing.sort(key=lambda f: f["impl"] not in ("abort", "timeout"))     # a killed process first: the gravest
     for f in failing[:5]:
         ctx.violation("field operation differs from Circom's documented semantics: %s gives %s, specified %s"
                       % (f["case"], f["impl"], f["spec"]), {"input": f["case"], "impl": f["impl"], "spec": f["spec"]})
@@ -593,46 +995,69 @@ def run(ctx, proofs):
             ctx.violation("proof obligations of C16 no longer check: " + "; ".join(proofs["failures"])[:500],
                           {"broken": "props/C16.v", "failures": proofs["failures"]}, no_input=True)
     hyp = disp["hypotheses"]
-    hyp["small_field_moduli_prime"] = {str(q): field_hypotheses(q) for q in SMALL}
+    hyp["small_field_moduli_prime"] = {str(q): field_hypotheses(q) for q in small}
     hyp["shipped_primes"] = {hex(q): field_hypotheses(q) for q in primes}
+    hyp["shift_bounded_work"] = swork
     if not all(hyp["small_field_moduli_prime"].values()) or not all(hyp["shipped_primes"].values()):
-        hyp["broken"].append({"moduli": "a modulus of the sweep does not meet `prime p /\\ 2 < p /\\ Z.log2 p < 2^64`"})
+        hyp["broken"].append({"moduli": "a modulus of the sweep does not meet `prime p /\\ 2 < p /\\ Z.log2 p < 2^64`",
+                              "which": [hex(q) for q in primes if not field_hypotheses(q)] + [str(q) for q in small if not field_hypotheses(q)]})
+    if swork["conclusion_broken"] or swork["hypotheses_0<p_and_fuel>=2_hold"] != swork["cases"]:
+        hyp["broken"].append({"shift_w": "C16_shift_bounded_work does not hold of the extracted recursion on an explored case",
+                              "first": (swork["conclusion_broken"] or ["p <= 0"])[0]})
+    # every supported curve must have been reached by name (otherwise its prime is not exercised): counted, not assumed
+    variants = curve_info["variants_in_source"]
+    if not curves:
+        hyp["broken"].append({"curves": "no curve name of constants.rs is accepted by Curve::from_str", "info": curve_info})
+    elif variants is not None and len(curve_info["curves"]) - len(curve_info["reached_only_as_default"]) < len(set(variants)):
+        hyp["broken"].append({"curves": "enum Curve has %d variants %r, but only %d curves were reached by a name found in "
+                                        "constants.rs: a supported prime is not exercised" % (len(set(variants)), variants, len(curves)),
+                              "reached": sorted(curve_info["curves"])})
     if hyp["broken"] and not failing and not disagreements:
         ctx.violation("a hypothesis of the C16 theorems does not hold on an explored case: %r" % (hyp["broken"][0],),
                       {"broken": "hypotheses of the C16 dispatch / field theorems (prime p, 2 < p, log2 p < 2^64, lits_nonneg, "
-                                 "lit_dispatch answers)", "first": hyp["broken"][0], "count": len(hyp["broken"])}, no_input=True)
+                                 "lit_dispatch answers, every curve reached)", "first": hyp["broken"][0], "count": len(hyp["broken"])}, no_input=True)
     if anchor["status"] == "changed" and not failing and not disagreements:
         ctx.violation("the library code mirrored by Model.FieldPow (num-bigint-dig monty_modpow) is not the one linked: " + anchor["why"],
                       {"broken": "structure mirror Model.FieldPow vs num-bigint-dig", "anchor": anchor}, no_input=True)
     ctx.coverage.update({
-        "pow_structure": {"cases": len(pow_idx), "max_multiplications": max_steps, "anchor": anchor},
+        "pow_structure": {"cases": npow_struct, "max_multiplications": max_steps, "anchor": anchor},
         "evaluations": evaluations,
         "distinct_nontrivial": len(nontrivial),
         "rule": "every operation on every operand pair of the prime fields %s (exhaustive), plus boundary values "
-                "(0,1,p/2-1..p/2+2,p-2,p-1, 2^k+-1 around 1,8,32,64,bits(p),253..256; shift counts around bits(p), 2^20, 2^40, "
-                "2^64, p/2, p-bits(p), p-1) and seeded random operands for the primes read from constants.rs; "
-                "a case is distinct-nontrivial per (operation, prime, result) on canonical operands" % SMALL,
+                "(0,1,p/2-1..p/2+2,p-2,p-1, 2^k+-1 around 1,8,32,64,bits(p),253..256; shift counts 0,1,2,31..33,63..65,127..129,"
+                "191..193,bits(p)-2..bits(p)+1, 2^20, 2^40, 2^64-1, 2^64, p/2, p/2+1 and p minus each of them; EVERY count "
+                "0..bits(p)+1 and p-bits(p)-1..p-1 on ten operands) and seeded random operands for the primes obtained by executing "
+                "Curve::from_str / UsefulConstants::new; operands outside [0,p) - at and above p, 2^256+5, 2^300-1, and NEGATIVE "
+                "ones - against the mirror only; a case is distinct-nontrivial per (operation, prime, result) on canonical operands" % small,
         "exhaustive": False,
-        "exhaustive_part": "all operand pairs of the fields %s: %d evaluations" % (SMALL, len(spec.splitlines())),
+        "exhaustive_part": "all operand pairs of the fields %s: %d evaluations" % (small, len(spec.splitlines())),
         "samples": [disagreements[0]] if disagreements else [impl_l[7], impl_l[len(impl_l) // 2], impl_l[-1]],
         "result_kinds_big_primes": kinds,
+        "error_variant_names_seen": err_names,
+        "case_classes": case_stats,
+        "work": work,
+        "harness_process": {"died_on_cases": run_stats.get("aborts", [])[:5], "died_count": len(run_stats.get("aborts", [])),
+                            "not_run": run_stats.get("not_run", 0), "restarts_after_timeout": run_stats.get("restarts_after_timeout", 0)},
+        "curves_by_execution": curve_info,
         "disagreements_model_vs_impl": len(disagreements),
         "spec_failures": len(failing),
         "primes": [hex(p) for p in primes],
         "dispatch": {
             "rule": "closed expressions `function f() { return E; }` over literals run through parse, into_cfg, into_ssa "
-                    "(Cfg::propagate_values) of the current tree, on the curves read from constants.rs: every infix and "
+                    "(Cfg::propagate_values) of the current tree, on the curves obtained by executing Curve::from_str: every infix and "
                     "prefix operator on boundary/random literals in [0,p), on literals at and above p (p, p+1, 2p-1, 2p+3, "
                     "~3.5p, 2^256+5, 2^300-1), on Boolean operands (all truth-value combinations), on mixed operands, and "
                     "random nestings of depth <= 3; compared node by node with the pass-loop mirror "
                     "(Model.FieldDispatch.propagate_lit over Model.Propagate.pv_expr), at the root with the bottom-up "
-                    "dispatch (lit_dispatch) and with the documented value (Spec.DispatchSpec.doc_eval); "
+                    "dispatch (lit_dispatch) and with the documented value (Spec.DispatchSpec.doc_eval); a node at which the "
+                    "implementation attaches a constant and the mirror none is judged by the documented value of its subtree; "
                     "distinct-nontrivial per (root operator, curve, attached constant)",
             "expressions": disp["cases"],
             "distinct_nontrivial": disp["nontrivial"],
             "operators": disp["ops"],
             "curves": disp["curves"],
             "root_constant_kinds": disp["kinds"],
+            "extra_constants": disp["extra_constants"],
             "hypotheses_evaluated": hyp,
             "link_to_the_running_code": "theorems C16_pass_loop_reaches_dispatch / C16_pass_loop_total: for every closed expression "
                                         "the pass-loop mirror (propagate_lit) ends with every node carrying the bottom-up constant "
@@ -642,20 +1067,36 @@ def run(ctx, proofs):
     })
     ctx.assumptions += [
         "num-bigint-dig's BigInt operators (%, /, &, |, ^, modpow, mod_inverse, to_radix_le) behave as Z.rem, Z.quot, Z.land, "
-        "Z.lor, Z.lxor, a^b mod p, the canonical inverse and binary digits: observed by the correspondence, not proved",
-        "the three shipped constants are prime (hypothesis `prime p` of the division and canonicity theorems)",
-        "wall-clock boundedness is observed (2 s watchdog on large shift counts and exponents, 5 s on closed expressions; a case that "
-        "times out is re-run alone with a 20 s limit before it counts); the proved bounds are on the size of the power of two built "
-        "by a shift and on the number of modular multiplications of `**`",
-        "Model.FieldPow mirrors the multiplication SEQUENCE of num-bigint-dig 0.8.4 monty_modpow, a Montgomery product being "
+        "Z.lor, Z.lxor, a^b mod p, the canonical inverse and binary digits: observed by the correspondence (negative operands "
+        "included since the third audit), not proved",
+        "the shipped constants are prime (hypothesis `prime p` of the division and canonicity theorems): Miller-Rabin, 24 bases",
+        "bounded time and bounded work are OBSERVED, on the explored cases only: every call (not only large counts) runs under a "
+        "2 s watchdog (5 s for a closed expression; a case that times out is re-run alone with a 20 s limit before it counts); "
+        "the largest single allocation of every call on the shipped primes stays below 4*(bits a + bits b + 2 bits p + 256)/8 + "
+        "1024 bytes (counting global allocator in the harness); a harness process that dies (stack overflow, failed allocation) "
+        "is restarted and the case that killed it reported as a failing input.  PROVED, for the mirror of the recursion as "
+        "written and all integer operands: a shift makes at most two calls, builds 2^k only for k below the mask width or the "
+        "operand's bit size, and computes nothing beyond bits(l) + bits(p) bits; `**` makes 17 or 80*limbs(e)+13 modular "
+        "multiplications.  The call count of the Rust recursion itself is not observable: only its termination and its "
+        "allocations are",
+        "Model.FieldPow mirrors the multiplication SEQUENCE of num-bigint-dig monty_modpow, a Montgomery product being "
         "represented by the residue it stands for; the count is proved for the mirror and cannot be observed on the library; that "
-        "this is the code linked is checked by Cargo.lock version + checksum, the sha256 of monty.rs in the cargo registry, the "
-        "window and limb widths and the text of modular_arithmetic::pow (corpus/C16/modpow_anchor.json), not by execution; an even "
+        "this is the code linked is checked on the package `cargo metadata` names: monty.rs without comments and white space "
+        "(sha256), the window and limb widths and the body of modular_arithmetic::pow without comments "
+        "(corpus/C16/modpow_anchor.json), not by execution; version and checksum are recorded only; an even "
         "modulus takes a library path that is not mirrored (every prime > 2 is odd: proved)",
+        "for operands outside [0,p) the property fixes no value: there the implementation is compared with the mirror only (and "
+        "must answer without panic or time-out, except `**` with a negative exponent, where the library panics and the mirror "
+        "Model.FieldPow says so; the dispatch never passes one: C16_dispatch_sound)",
+        "which variant of ArithmeticError names an over-large shift (DivisionByZero today) is not compared: the observable is "
+        "value / error of the kind the property names (coverage.error_variant_names_seen records the names)",
         "the dispatch is driven on closed expressions over literals inside `function f() { return E; }` through parser, lowering "
         "and SSA of the current tree; operands that are variables, phi results, array elements or calls are C06 / C20's subject; "
         "the mirror of the operator tables is Model.Propagate.infix_values / prefix_values / pv_expr, shared with C06 and C20",
     ]
+    if variants is None:
+        ctx.assumptions.append("`enum Curve` could not be read from constants.rs: that every variant was reached by a name is "
+                               "NOT checked in this run (the curves found by execution: %s)" % sorted(curve_info["curves"]))
 
 
 def replay(ctx, rep):
@@ -668,7 +1109,7 @@ def replay(ctx, rep):
     if line.startswith("dispatch "):
         head, text, toks = [x.strip() for x in line.split("::")]
         _, name, phex = head.split()
-        out = common.run_lines(HARNESS_BIN, ["dispatch"], ["%s %s" % (name, text.encode().hex())])[0].split(" = ", 1)[1]
+        out = run_cases(HARNESS_BIN, ["dispatch"], ["%s %s" % (name, text.encode().hex())], shards=1)[0].split(" = ", 1)[1]
         mir = common.run_lines(MODEL_BIN, ["dispatch-loop"], ["%s %s" % (phex, toks)])[0].split(" = ", 1)[1]
         doc = common.run_lines(MODEL_BIN, ["dispatch-doc"], ["%s %s" % (phex, toks)])[0].split(" = ", 1)[1]
         print("expression    :", text, "on", name)
@@ -679,8 +1120,22 @@ def replay(ctx, rep):
         if why:
             print("verdict       :", why)
         return 0 if (why is None and out == mir) else 1
-    out = common.run_lines(HARNESS_BIN, [], [line])
-    spec = common.run_lines(MODEL_BIN, ["spec"], [line])
-    print("implementation:", out[0])
-    print("specification :", spec[0])
-    return 0 if out[0] == spec[0] else 1
+    op, a, b, p = line.split()
+    a, b, p = (int(x, 16) for x in (a, b, p))
+    out = run_cases(HARNESS_BIN, ["work"], [line], shards=1)[0].split(" = ", 1)[1]
+    m = re.match(r"(.*) maxalloc (\d+)$", out)
+    ri, alloc = (m.group(1), int(m.group(2))) if m else (out, None)
+    mir = common.run_lines(MODEL_BIN, ["mirror"], [line])[0].split(" = ", 1)[1]
+    print("implementation:", out)
+    print("mirror        :", mir)
+    ok = canon_res(op, ri) == canon_res(op, mir) or (op == "pow" and not (0 <= a < p and 0 <= b < p))
+    if 0 <= a < p and 0 <= b < p:
+        rs = common.run_lines(MODEL_BIN, ["spec"], [line])[0].split(" = ", 1)[1]
+        print("specification :", rs)
+        ok = div_ok(a, b, p, ri) if op == "div" else spec_accepts(op, a, b, p, canon_res(op, ri), canon_res(op, rs))
+    elif ri in ("abort", "timeout", "panic") and not (op == "pow" and b < 0):
+        ok = False
+    if alloc is not None and alloc > alloc_bound(op, a, b, p):
+        print("bounded work  : %d bytes allocated at once, bound %d" % (alloc, alloc_bound(op, a, b, p)))
+        ok = False
+    return 0 if ok else 1
